@@ -41,10 +41,11 @@ def size_variants(mn, d, mode, seed):
         except Exception:
             continue
         blen = f.nbits // 8
-        word = f.fix | (rng.getrandbits(f.nbits) & ~f.mask)
-        b = word.to_bytes(blen, "little") + bytes(rng.getrandbits(8) for _ in range(max(1, d.maxlen - blen - 1)))
-        out.append(b"\x66" + b)
-        out.append(b"\x67" + b)
+        for _ in range(3):          # three draws of the free bits and of the ModRM/SIB/displacement tail
+            word = f.fix | (rng.getrandbits(f.nbits) & ~f.mask)
+            b = word.to_bytes(blen, "little") + bytes(rng.getrandbits(8) for _ in range(max(1, d.maxlen - blen - 1)))
+            out.append(b"\x66" + b)
+            out.append(b"\x67" + b)
     return out
 
 
@@ -531,8 +532,9 @@ def check_wellformed(i, desc, cpu=None):
         if not isinstance(s, str):
             bad.append(("wf:str", "str() returned %r" % type(s)))
     except Exception as e:
-        bad.append(("str:" + sig(e), "formatting raised %s: %s" % (sig(e), str(e)[:80])))
+        bad.append(("str:" + sig_arch(e), "formatting raised %s (in %s): %s" % (sig(e), sig_arch(e), str(e)[:80])))
         seen.add(sig(e))
+        seen.add(sig_arch(e))
         s = None
     try:
         j = pickle.loads(pickle.dumps(i))
@@ -543,8 +545,9 @@ def check_wellformed(i, desc, cpu=None):
     try:
         i(mapper())
     except Exception as e:
-        bad.append(("exec:" + sig(e), "instruction(mapper()) raised %s: %s" % (sig(e), str(e)[:80])))
+        bad.append(("exec:" + sig_arch(e), "instruction(mapper()) raised %s (in %s): %s" % (sig(e), sig_arch(e), str(e)[:80])))
         seen.add(sig(e))
+        seen.add(sig_arch(e))
     if cpu is None:
         return bad
     # the same instruction located in a program (as the sweeps and the emulator do) ...
@@ -556,10 +559,10 @@ def check_wellformed(i, desc, cpu=None):
             try:
                 str(i)
             except Exception as e:
-                if sig(e) in seen:       # the failure already reported without an address
+                if sig_arch(e) in seen:       # the failure already reported without an address
                     break
-                seen.add(sig(e))
-                bad.append(("str@addr:" + sig(e), "formatting with address %#x raised %s: %s" % (a, sig(e), str(e)[:80])))
+                seen.add(sig_arch(e))
+                bad.append(("str@addr:" + sig_arch(e), "formatting with address %#x raised %s: %s" % (a, sig(e), str(e)[:80])))
                 break
         # ... and applied to states in which every register holds a constant (all zero, all ones, seeded)
         for name, val in (("zeros", lambda r: 0), ("ones", lambda r: (1 << r.size) - 1), ("seeded", lambda r: krng.getrandbits(r.size))):
